@@ -87,6 +87,11 @@ Definition set_extra (f : frame) (name : bytes) (v : aval) : frame :=
   mkFrame (f_def f) (f_args f) (assoc_set name v (f_extra f)) (f_children f)
           (f_nextargpos f) (f_rargs f) (f_curarg f) (f_attach f).
 
+(* extra_arguments.pop(name, None) *)
+Definition del_extra (f : frame) (name : bytes) : frame :=
+  mkFrame (f_def f) (f_args f) (assoc_del name (f_extra f)) (f_children f)
+          (f_nextargpos f) (f_rargs f) (f_curarg f) (f_attach f).
+
 Definition set_curarg (f : frame) (c : option argdef) : frame :=
   mkFrame (f_def f) (f_args f) (f_extra f) (f_children f) (f_nextargpos f) (f_rargs f) c (f_attach f).
 
@@ -148,7 +153,8 @@ Fixpoint cna_scan (f : frame) (defs : list argdef) (pos : nat) (t : atype) (v : 
                              end
                          end in
                      let f1 := if takes_param then set_curarg f (Some ca) else f in
-                     CnaOk (if add then set_arg f1 (a_name ca) v else f1) (Some ca)
+                     (* the parameter of an earlier tag of this slot is dropped with it *)
+                     CnaOk (if add then del_extra (set_arg f1 (a_name ca) v) (a_name ca) else f1) (Some ca)
                  end
              end
            else cna_scan f rest (S pos) t v add check_ext loaded
